@@ -178,13 +178,19 @@ pub fn replay_cur(a: &mut Args, with_dump: bool) -> (Option<Qbvh<u32>>, Vec<Aabb
 pub fn exec(func: &str, a: &mut Args) -> String {
     match func {
         // `hist`: model-compared; `histo`: same dump, oracle only (operations the model does not cover yet)
-        // the replay runs on a watchdog thread (as `mixq` does): a hang of the real code — never seen on the unchanged tree; a
-        // corrupted tree can make `refit` / `rebalance` loop for ever — is reported as `PANIC hang` instead of stalling the run
-        "hist" | "histo" => {
+        // these run on a watchdog thread (as `mixq` does): a hang of the real code — never seen on the unchanged tree; a
+        // corrupted tree can make `refit` / `rebalance` / a traversal loop for ever — is reported as `PANIC hang` instead of
+        // stalling the run
+        "hist" | "histo" | "topo" | "bquery" => {
             let toks: String = a.t[a.i..].join(" ");
             a.i = a.t.len();
+            let f = func.to_string();
             let (tx, rx) = std::sync::mpsc::channel();
-            let th = std::thread::Builder::new().stack_size(64 << 20).spawn(move || { let mut a = Args::new(&toks); let _ = tx.send(replay(&mut a, true).1); });
+            let th = std::thread::Builder::new().stack_size(64 << 20).spawn(move || {
+                let mut a = Args::new(&toks);
+                let r = match f.as_str() { "bquery" => bld::exec(&f, &mut a), "topo" => ext::exec(&f, &mut a), _ => replay(&mut a, true).1 };
+                let _ = tx.send(r);
+            });
             if th.is_err() { return "PANIC spawn ;".into(); }
             match rx.recv_timeout(std::time::Duration::from_secs(20)) { Ok(s) => s, Err(_) => "PANIC hang ;".into() }
         }
@@ -355,7 +361,6 @@ pub fn exec(func: &str, a: &mut Args) -> String {
                 }
             }
         }
-        "bquery" => bld::exec(func, a),
         _ => ext::exec(func, a),
     }
 }
